@@ -378,6 +378,11 @@ func (c *Config) validateMetrics() error {
 		if c.Metrics.Path == "" {
 			return fmt.Errorf("metrics path is required when enabled")
 		}
+		// http.ServeMux takes a pattern without a leading slash for a host name: the metrics handler
+		// would be registered for a host nobody asks for and every path would answer 404
+		if !strings.HasPrefix(c.Metrics.Path, "/") {
+			return fmt.Errorf("metrics path must start with \"/\" (got %q)", c.Metrics.Path)
+		}
 		// The metrics server also serves its own /health endpoint; registering the metrics handler
 		// under the same pattern makes http.ServeMux panic at start-up
 		if c.Metrics.Path == "/health" {
